@@ -195,6 +195,7 @@ func (g *gen) kitCall(c gctx) (string, bool) {
 			"for (var w of it0) { ev('Y', w); break; }",
 			"var [t1] = it0;",
 			"acc0.p;", "acc0.p = 4;", "ga0;", "ga0 = 6;", "+cv0;", "`${cv0}`;",
+			"j0.join('-');", "String(j0);", "'' + j0;", "JSON.stringify(j0);", "[j0, 5].join(';');", "j0.toLocaleString();", "j0.map(String);",
 			// a generator suspended across API calls
 			"var gg = g0(); gg.next();",
 			"if (typeof gg === 'object') { ev('L', 'gg'); gg.next(); }",
@@ -248,7 +249,7 @@ func (g *gen) stmt(c gctx) *node {
 	if c.depth >= 4 || g.budget <= 0 {
 		return g.leafStmt(c)
 	}
-	switch r.PickW([]int{30, 16, 14, 5, 8, 5, 6, 4, 5, 7, 4, 4, 3, 3}) {
+	switch r.PickW([]int{30, 16, 14, 5, 8, 5, 6, 4, 5, 7, 4, 4, 3, 11, 3}) {
 	case 0:
 		return g.leafStmt(c)
 	case 1: // try
@@ -412,12 +413,108 @@ func (g *gen) stmt(c gctx) *node {
 		g.nIt++
 		head, blocks := g.iterableInline(c, g.nIt)
 		return &node{Head: "var [" + g.local(c) + "] = " + head, Blocks: blocks, Tail: ";"}
+	case 13: // callbacks of built-ins that keep per-Runtime auxiliary state, on objects that survive the call
+		return g.builtinStmt(c)
 	default: // re-entrant run from a native
 		if c.restricted || g.noInner {
 			return g.leafStmt(c)
 		}
 		i := g.innerProgram()
 		return leaf(fmt.Sprintf("reenter(%d);", i))
+	}
+}
+
+// builtinStmt: a probe-carrying callback invoked from inside a built-in (join / toString / toLocaleString of arrays and
+// typed arrays, JSON.stringify / parse, ToPrimitive, sort, iteration helpers, Map/Set forEach, Object.assign getters,
+// RegExp subclass exec, Promise combinators, Number/Date conversions). The object being processed is stored in a
+// global (j1, q1, u1) so that it survives an abrupt end of the call and the follow-up battery can re-use it.
+func (g *gen) builtinStmt(c gctx) *node {
+	r := g.r
+	cb := c.fn("native").with("builtin")
+	// the callbacks live on surviving objects and are also run by follow-ups that have no run boundary (Try(Object.Get), ToInteger)
+	restrictedOuter := c.restricted
+	cb.restricted = true
+	one := func(head, open string, cx gctx, tail string) *node {
+		return &node{Head: head, Blocks: []blk{{Open: open, Body: g.pblock(cx, 1), Close: tail}}}
+	}
+	switch r.Intn(16) {
+	case 0, 1: // element toString inside join / toString / String() / template / concatenation / toLocaleString
+		op := core.Pick(r, []string{"j1.join('-');", "'' + j1;", "String(j1);", "[j1, 5].join(';');", "j1.toLocaleString();", "`${j1}`;", "j1.toString();", "[[j1]].join();"})
+		return one("globalThis.j1 = [1, {toString: function()", "{ ev('E', 'el.toString'); ", cb.with("join"), " return 'x'; }}, 3]; "+op)
+	case 2: // separator toString
+		if r.Bool() {
+			return one("globalThis.j1 = [3, 1, 2]; j1.join({toString: function()", "{ ev('E', 'sep.toString'); ", cb.with("join"), " return '-'; }});")
+		}
+		return one("globalThis.u1 = new Uint8Array([3, 1, 2]); u1.join({toString: function()", "{ ev('E', 'sep.toString'); ", cb.with("join"), " return '-'; }});")
+	case 3: // index getter / length getter
+		if r.Bool() {
+			return one("globalThis.j1 = [1, 2, 3]; Object.defineProperty(j1, 1, {get: function()", "{ ev('E', 'idx.get'); ", cb.with("join"), " return 9; }, enumerable: true, configurable: true}); "+core.Pick(r, []string{"j1.join();", "String(j1);", "j1.indexOf(9);", "j1.slice();", "j1.concat([4]);"}))
+		}
+		return one("Array.prototype.join.call({0: 'a', 1: 'b', get length()", "{ ev('E', 'len.get'); ", cb.with("join"), " return 2; }});")
+	case 4: // typed arrays
+		head, tail := "globalThis.u1 = new Uint8Array([3, 1, 2]); u1.sort(function(x, y)", " return x - y; });"
+		switch r.Intn(3) {
+		case 1:
+			head, tail = "globalThis.u1 = new Uint8Array([3, 1, 2]); u1.map(function(x)", " return x + 1; });"
+		case 2:
+			head, tail = "globalThis.u1 = new Uint8Array([3, 1, 2]); u1.fill({valueOf: function()", " return 7; }});"
+		}
+		return one(head, "{ ev('E', 'ta.cb'); ", cb, tail)
+	case 5: // JSON
+		switch r.Intn(3) {
+		case 0:
+			return one("globalThis.q1 = {a: 1, b: {toJSON: function()", "{ ev('E', 'toJSON'); ", cb.with("json"), " return 'j'; }}, c: [1]}; JSON.stringify(q1);")
+		case 1:
+			return one("globalThis.q1 = {a: 1, c: [1, {d: 2}]}; JSON.stringify(q1, function(k, v)", "{ ev('E', 'replacer'); ", cb.with("json"), " return v; });")
+		default:
+			return one("JSON.parse('{\"a\":[1,{\"b\":2}]}', function(k, v)", "{ ev('E', 'reviver'); ", cb.with("json"), " return v; });")
+		}
+	case 6, 7: // ToPrimitive re-entrancy, Number / Date / String built-ins with a user valueOf
+		op := core.Pick(r, []string{"q1 + 1;", "q1 * 2;", "String(q1);", "`${q1}`;", "new Date(q1).getTime();", "(255).toString(q1);", "(5).toFixed(q1);", "'ab'.padStart(q1, 'x');",
+			"[1, 2, 3, 4, 5, 6].slice(q1);", "Math.max(q1, 1);", "'abcdef'.substring(q1);", "new Array(q1 + 0);", "q1 < 5;", "q1 == 4;", "[q1, q1].join();", "parseInt('11', q1);"})
+		if r.Chance(1, 3) {
+			return one("globalThis.q1 = {}; q1[Symbol.toPrimitive] = function(hint)", "{ ev('E', 'toPrimitive'); ", cb.with("toprimitive"), " return 4; }; "+op)
+		}
+		return one("globalThis.q1 = {valueOf: function()", "{ ev('E', 'valueOf'); ", cb.with("toprimitive"), " return 4; }}; "+op)
+	case 8: // Map / Set forEach on the surviving collections
+		if r.Bool() {
+			return one("m0.set(1, d0); m0.forEach(function(v, k)", "{ ev('E', 'map.forEach'); ", cb, "});")
+		}
+		return one("s0.add(1); s0.forEach(function(v)", "{ ev('E', 'set.forEach'); ", cb, "});")
+	case 9: // iteration helpers on the surviving array
+		m := core.Pick(r, []string{"filter", "some", "every", "find", "findIndex", "flatMap", "findLast"})
+		return one("a0.push(1); a0."+m+"(function(x)", "{ ev('E', 'a0."+m+"'); ", cb, " return false; });")
+	case 10: // getters read by Object.assign / entries / spread / JSON.stringify
+		op := core.Pick(r, []string{"Object.assign({}, q1);", "Object.entries(q1);", "({...q1});", "JSON.stringify(q1);", "Object.values(q1);", "structuredCloneLike = [q1.g];"})
+		return one("globalThis.q1 = {a: 1}; Object.defineProperty(q1, 'g', {get: function()", "{ ev('E', 'q1.g'); ", cb.with("getter"), " return d0; }, enumerable: true, configurable: true}); "+op)
+	case 11: // RegExp subclass exec, replace callback
+		cs := cb
+		cs.strict = true
+		switch r.Intn(4) {
+		case 0:
+			return one("'aXbXc'.replace(new (class extends RegExp { exec(s)", "{ ev('E', 're.exec'); ", cs.with("regexp"), " return super.exec(s); } })('X', 'g'), 'y');")
+		case 1:
+			return one("'aXbXc'.split(new (class extends RegExp { exec(s)", "{ ev('E', 're.exec'); ", cs.with("regexp"), " return super.exec(s); } })('X'));")
+		case 2:
+			return one("new (class extends RegExp { exec(s)", "{ ev('E', 're.exec'); ", cs.with("regexp"), " return super.exec(s); } })('X').test('aX');")
+		default:
+			return one("'aXbXc'.replace(/X/g, function(m)", "{ ev('E', 're.replacer'); ", cb.with("regexp"), " return 'y'; });")
+		}
+	case 12: // Promise combinators with a thenable
+		if restrictedOuter {
+			return g.leafStmt(c)
+		}
+		g.nJob++
+		m := core.Pick(r, []string{"all", "race", "allSettled", "any"})
+		cj := gctx{tags: []string{"job", "native", "builtin"}, inFn: true, level: c.level, depth: c.depth + 1, strict: c.strict}
+		return one("Promise."+m+"([1, {then: function(res, rej)", fmt.Sprintf("{ ev('J', %d); ", g.nJob), cj, fmt.Sprintf(" res(2); }}]).then(function(){ ev('J', -%d); });", g.nJob))
+	case 13: // sort of the surviving array with a comparator
+		return one("globalThis.j1 = [3, 1, 2, 5, 4]; j1.sort(function(x, y)", "{ ev('E', 'cmp'); ", cb.with("comparator"), " return x - y; });")
+	default: // re-use of whatever survived an earlier call
+		return leaf(core.Pick(r, []string{
+			"if (typeof j1 === 'object') { ev('L', j1.join('+')); }", "if (typeof j1 === 'object') { ev('L', String(j1)); }",
+			"if (typeof q1 === 'object') { try { ev('L', JSON.stringify(q1)); } catch (e) { ev('C', 'q1'); } }",
+			"if (typeof u1 === 'object') { ev('L', u1.join()); }", "ev('L', String(a0) + JSON.stringify(o0));"}))
 	}
 }
 
@@ -512,6 +609,9 @@ func (g *gen) kitProgram() []*node {
 	l = append(l, &node{Head: "Object.defineProperty(globalThis, 'ga0', {get: function()", Blocks: []blk{
 		{Open: "{ ev('E', 'ga0.get'); ", Body: body(cr("native", "getter"), 1), Close: " return d1; }, set: function(v)"},
 		{Open: "{ ev('E', 'ga0.set'); ", Body: body(cr("native", "setter"), 1), Close: " d1 = v; }, configurable: true, enumerable: false});"}}})
+	l = append(l, &node{Head: "var el0 = {toString: function()", Blocks: []blk{
+		{Open: "{ ev('E', 'el0.toString'); ", Body: body(cr("native", "builtin", "join"), 1), Close: " return 'e'; }, toJSON: function()"},
+		{Open: "{ ev('E', 'el0.toJSON'); ", Body: g.maybeProbe(cr("native", "builtin", "json")), Close: " return 'j'; }}; var j0 = [1, el0, [2, el0]];"}}})
 	l = append(l, &node{Head: "var cv0 = {valueOf: function()", Blocks: []blk{
 		{Open: "{ ev('E', 'cv0'); ", Body: body(cr("native", "valueof"), 2), Close: " return 7; }};"}}})
 	return l
@@ -548,7 +648,7 @@ func genHistory(r *core.Rng) (*history, [][]*node) {
 			h.Calls = append(h.Calls, c)
 			continue
 		}
-		switch r.PickW([]int{12, 12, 10, 6, 6, 3, 6, 5, 5, 3, 4, 3, 6}) {
+		switch r.PickW([]int{12, 12, 10, 6, 6, 3, 6, 5, 5, 3, 4, 3, 6, 5}) {
 		case 0, 1:
 			prog := g.topLevel(r.Range(1, 3))
 			c.Kind = core.Pick(r, []string{kRunProgram, kRunString})
@@ -576,6 +676,8 @@ func genHistory(r *core.Rng) (*history, [][]*node) {
 			c = callSpec{Kind: kRtGet, Name: "ga0"}
 		case 11:
 			c = callSpec{Kind: kRtSet, Name: "ga0", Arg: r.Intn(5)}
+		case 13:
+			c = callSpec{Kind: kTryString, Name: "j0"}
 		default:
 			c = callSpec{Kind: kGenDrive, Name: "g0", Arg: r.Range(1, 3)}
 		}
